@@ -88,6 +88,9 @@ func (q PathQ) Escape() (ssa.Instruction, []*ssa.BasicBlock) {
 			if infeasibleEdge(b, si) {
 				continue
 			}
+			if phiDecided(b, it.st.pred, si) {
+				continue
+			}
 			push(s, b, 0, qi)
 		}
 	}
